@@ -36,3 +36,14 @@ CHECKS['C07'] = dict(
          'for in_range/equals/within_percent/matches_regex/all_in_range/all_equals/pivots, plus constructor consistency, '
          'with_args sibling derivations, equality and deep copies; decisions are compared with a Fraction-exact oracle.',
     note='Finite grids (listed in the harness); cases the statement leaves open are skipped (see assumptions in the evidence).')
+
+CHECKS['C13'] = dict(
+    engine='enum', level='model_checking', design_ref='DESIGN.md#c13',
+    technique='exhaustive payload/fault enumeration vs independent codec + stateless schedule exploration of writers/readers',
+    text='All payloads of length <= 2 over 256 byte values, the command x 32-bit argument grid and long payload shapes are '
+         'framed by the real AdbTransportAdapter and compared byte-for-byte with an independent struct codec and read back; '
+         'every single-bit header flip, +-1 length/checksum, unknown command word, header truncation 0..23 and payload '
+         'truncation must be rejected with an ADB integrity/protocol error; the deadline is made to pass at every transport '
+         'operation; concurrent writers/readers are explored under the controlled scheduler.',
+    note='Payload space beyond length 2 is covered by shape only (256^4096 is not enumerable); magic-word flips are not '
+         'required to be rejected; line-level preemption granularity in focus functions.')
